@@ -418,6 +418,11 @@ type Dur struct {
 	Ns         *big.Rat // exact value in nanoseconds
 	Components int      // number of number+unit components
 	FracComps  int      // components written with a non-empty fractional part
+	SubNs      int      // components whose own value is not a whole number of ns
+	Neg        bool     // written with a leading '-'
+	// FloorMag / CeilMag: the magnitude with every component rounded down / up
+	// to a whole nanosecond (equal to |Ns| when SubNs == 0).
+	FloorMag, CeilMag *big.Int
 }
 
 var unitNs = map[string]int64{
@@ -438,7 +443,7 @@ var unitNs = map[string]int64{
 // where every number has at least one digit and unit is one of ns, us, µs, μs,
 // ms, s, m, h.  ok is false for anything else.
 func ParseDuration(s string) (Dur, bool) {
-	d := Dur{Ns: new(big.Rat)}
+	d := Dur{Ns: new(big.Rat), FloorMag: new(big.Int), CeilMag: new(big.Int)}
 	neg := false
 	if s != "" && (s[0] == '-' || s[0] == '+') {
 		neg = s[0] == '-'
@@ -489,11 +494,19 @@ func ParseDuration(s string) (Dur, bool) {
 		v := new(big.Rat).SetFrac(num, den)
 		v.Mul(v, new(big.Rat).SetInt64(u))
 		d.Ns.Add(d.Ns, v)
+		fl := new(big.Int).Quo(v.Num(), v.Denom()) // v >= 0: truncation is floor
+		d.FloorMag.Add(d.FloorMag, fl)
+		d.CeilMag.Add(d.CeilMag, fl)
+		if !v.IsInt() {
+			d.SubNs++
+			d.CeilMag.Add(d.CeilMag, big.NewInt(1))
+		}
 		d.Components++
 		if hasDot && fracPart != "" {
 			d.FracComps++
 		}
 	}
+	d.Neg = neg
 	if neg {
 		d.Ns.Neg(d.Ns)
 	}
